@@ -183,16 +183,18 @@ type c06Stream struct {
 	closedB  bool  // Body.Close called
 	tokIdx   int   // index of the `o` token of this stream in the executed script
 
-	head      bool // HEAD request
-	trailer   int  // -1: Request.Trailer nil; else the length of the declared trailer's value
-	trlLen    int  // trailer block length measured on the wire
-	trlOpen   bool // a trailer block is being received (HEADERS seen, END_HEADERS not yet)
-	trlSeen   bool
-	gotFinal  bool  // the final (non-1xx) response headers have been sent
-	n1xx      int   // informational responses sent so far
-	remain    int64 // Content-Length still to be read (-1: none declared)
-	readErr   bool  // a Read hit "more than declared Content-Length"
-	extended  bool  // the stream needs the long form of the open token
+	head     bool // HEAD request
+	trailer  int  // -1: Request.Trailer nil; else the length of the declared trailer's value
+	trlLen   int  // trailer block length measured on the wire
+	trlOpen  bool // a trailer block is being received (HEADERS seen, END_HEADERS not yet)
+	trlSeen  bool
+	gotFinal bool          // the final (non-1xx) response headers have been sent
+	n1xx     int           // informational responses sent so far
+	remain   int64         // Content-Length still to be read (-1: none declared)
+	readErr  bool          // a Read hit "more than declared Content-Length"
+	extended bool          // the stream needs the long form of the open token
+	hookGate chan struct{} // non-nil: writeRequest is held between stream id allocation and the HEADERS write
+	cut      int           // >= 0: the request was cancelled after that many octets of its header block (openCancel)
 }
 
 // reqDone: the client considers the request written - it has sent END_STREAM, or the request has
@@ -228,30 +230,35 @@ type c06Env struct {
 	opened  []*c06Stream
 
 	// the peer's books
-	pendSettings [][]xhttp2.Setting
-	initWin      int64 // acknowledged SETTINGS_INITIAL_WINDOW_SIZE
-	connWin      int64 // the client's connection-level send window
-	maxConc      int64 // acknowledged MAX_CONCURRENT_STREAMS (-1 = none)
-	maxFrame     int64 // acknowledged MAX_FRAME_SIZE
-	cInitWin     int64 // advertised by the client
-	cConnWin     int64 // the peer's connection-level send window towards the client
-	cSent        int64 // flow-controlled bytes the peer has sent (data + padding)
-	cCredited    int64 // connection-level WINDOW_UPDATE increments received after the preface
-	ackSeen      int
-	acksSent     int
-	pingSeq      uint64
-	pingAcked    uint64
+	pendSettings    [][]xhttp2.Setting
+	initWin         int64 // acknowledged SETTINGS_INITIAL_WINDOW_SIZE
+	connWin         int64 // the client's connection-level send window
+	maxConc         int64 // acknowledged MAX_CONCURRENT_STREAMS (-1 = none)
+	maxFrame        int64 // acknowledged MAX_FRAME_SIZE
+	cInitWin        int64 // advertised by the client
+	cConnWin        int64 // the peer's connection-level send window towards the client
+	cSent           int64 // flow-controlled bytes the peer has sent (data + padding)
+	cCredited       int64 // connection-level WINDOW_UPDATE increments received after the preface
+	ackSeen         int
+	acksSent        int
+	pingSeq         uint64
+	pingAcked       uint64
 	scriptPings     uint64 // PINGs sent by the script (payload c06ScriptPing + n)
 	scriptPingAcked uint64
-	closed       bool
-	goAwaySent   bool
-	noReuse      bool
+	closed          bool
+	goAwaySent      bool
+	noReuse         bool
 
 	noForcedWake bool // wake-up lane: do not broadcast on cc.cond after every operation
 	lostWakeups  []string
 	curTok       string // the operation in progress (for diagnostics)
 	settingsSent bool   // the peer has sent its first SETTINGS frame
 	exactHits    int    // adaptive scripts: header / trailer blocks of exactly the targeted length
+
+	gate      *c06Gate // between the ClientConn and the socket: parks a writer inside a frame write
+	holding   bool     // a body writer is parked inside a DATA frame (cc.wmu held): see feedHeld
+	holdSnap  inflow
+	heldCount int
 
 	deadSeen int
 	woke     bool     // the operation in progress ends with a cond.Broadcast in the client
@@ -304,7 +311,8 @@ func c06NewEnv(t testing.TB, cfg c06Cfg) (*c06Env, error) {
 	go e.readLoop()
 	e.tr = &Transport{Options: &transport.Options{DisableCompression: true}, Settings: cfg.settings, ConnectionFlow: cfg.connFlow,
 		PriorityFrames: cfg.prio, HeaderPriority: cfg.hdrPrio, StrictMaxConcurrentStreams: cfg.strict}
-	cc, err := e.tr.NewClientConn(cli)
+	e.gate = c06NewGate(cli)
+	cc, err := e.tr.NewClientConn(e.gate)
 	if err != nil {
 		e.srv.Close()
 		return nil, err
@@ -720,12 +728,13 @@ func (e *c06Env) creditOwed() int64 {
 type c06Shape struct {
 	head    bool
 	trailer int
+	delay   bool // the hook between stream id allocation and the HEADERS write blocks until released
 }
 
 func (e *c06Env) startRoundTrip(bodyLen int, known bool, padLen int, sh c06Shape) *c06Stream {
 	ctx, cancel := context.WithCancel(context.Background())
 	st := &c06Stream{cancel: cancel, known: known, total: int64(bodyLen), respCh: make(chan c06Resp, 1), stCh: make(chan *clientStream, 1),
-		head: sh.head, trailer: sh.trailer, remain: -1, extended: sh.head || sh.trailer >= 0}
+		head: sh.head, trailer: sh.trailer, remain: -1, extended: sh.head || sh.trailer >= 0, cut: -1}
 	var body io.ReadCloser
 	if !(known && bodyLen == 0) {
 		st.body = c06NewBody(bodyLen)
@@ -752,8 +761,16 @@ func (e *c06Env) startRoundTrip(bodyLen int, known bool, padLen int, sh c06Shape
 	if padLen > 0 {
 		req.Header.Set("X-Pad", strings.Repeat("~", padLen)) // '~' has a 13-bit Huffman code: the literal is sent raw
 	}
+	if sh.delay {
+		st.hookGate = make(chan struct{})
+	}
 	go func() {
-		res, err := e.cc.roundTrip(req, func(cs *clientStream) { st.stCh <- cs })
+		res, err := e.cc.roundTrip(req, func(cs *clientStream) {
+			st.stCh <- cs
+			if st.hookGate != nil {
+				<-st.hookGate
+			}
+		})
 		st.respCh <- c06Resp{res, err}
 	}()
 	return st
@@ -790,6 +807,9 @@ func (st *c06Stream) openToken() string {
 			n = c06TrailerBlockLen(st.trailer)
 		}
 		tr = fmt.Sprint(n)
+	}
+	if st.cut >= 0 {
+		return fmt.Sprintf("oc:%d:%d:%s:%s:%s:%d", st.hdrLen, st.total, c06B(st.known), c06B(st.head), tr, st.cut)
 	}
 	return fmt.Sprintf("oq:%d:%d:%s:%s:%s", st.hdrLen, st.total, c06B(st.known), c06B(st.head), tr)
 }
@@ -954,6 +974,7 @@ func (e *c06Env) cancelStream(id uint32) string {
 	live := !st.dead()
 	st.aborted = true
 	st.cancel()
+	e.holdMid(st)
 	e.waitDone(st)
 	e.afterOp(live)
 	return fmt.Sprintf("c:%d", id)
@@ -968,6 +989,7 @@ func (e *c06Env) readBody(id uint32, n int) string {
 		k, _ := st.res.Body.Read(buf)
 		ch <- rr{k}
 	}()
+	e.holdMid(nil)
 	live := !st.dead()
 	forgot := false
 	select {
@@ -1008,6 +1030,7 @@ func (e *c06Env) closeBody(id uint32) string {
 	}
 	ch := make(chan struct{})
 	go func() { st.res.Body.Close(); close(ch) }()
+	e.holdMid(st)
 	select {
 	case <-ch:
 	case <-time.After(c06Wait):
